@@ -3,11 +3,12 @@
    ExtrOcamlBasic (bool, option, list, pairs ...), ExtrOcamlNativeString
    (string/ascii -> OCaml string/char) and ExtrOCamlFloats (PrimFloat -> the
    kernel's Float64 module).  Z, N, positive stay the extracted datatypes. *)
-From Redka Require Import Base Db Glob ImplKey ImplString Ops Spec Abs.
+From Redka Require Import Base Db Glob ImplKey ImplString Ops Spec Abs Excl Inv.
 From Coq Require Import ExtrOcamlBasic ExtrOcamlNativeString ExtrOCamlFloats.
 Extraction Language OCaml.
 (* keep extracted file names from shadowing OCaml's standard library *)
 Extraction Blacklist String List Nat Int Char Bool Float Float64 Buffer Printf Stdlib.
 Separate Extraction
   Base Db Glob.glob Ops.exec_db Ops.exec_update Ops.exec_tx Ops.wrapped Ops.is_read
-  Spec.spec_step Spec.spec_update Spec.spec_mode Spec.proj_result Abs.abs.
+  Spec.spec_step Spec.spec_update Spec.spec_mode Spec.proj_result Abs.abs
+  Excl.excluded Excl.excluded_block Inv.inv_ok Inv.no_trace_ok Inv.meta_ok Inv.block_no_trace Inv.block_meta_ok.
